@@ -513,8 +513,9 @@ impl MgrModel {
     }
 }
 
-const CONNECTION_ESTABLISHED: i32 = 100;
-const CONNECTION_FAILURE: i32 = -100;
+// the library's own constants (re-exported through the cfg seam), so that a retuning of the scores is not an alarm
+const CONNECTION_ESTABLISHED: i32 = litep2p::verif::scores::CONNECTION_ESTABLISHED;
+const CONNECTION_FAILURE: i32 = litep2p::verif::scores::CONNECTION_FAILURE;
 
 impl Model for MgrModel {
     type Sys = Sys;
